@@ -47,6 +47,15 @@ def register_world(world):
 
 
 def make_isotherm(spec):
+    iso = _make_isotherm(spec)
+    if spec.get("adsorbate_object"):
+        # the user (re)defines the adsorbate and assigns the object: a second Adsorbate of the same name may exist
+        import pygaps
+        iso.adsorbate = pygaps.Adsorbate(spec["adsorbate"], **copy.deepcopy(spec["adsorbate_object"]))
+    return iso
+
+
+def _make_isotherm(spec):
     import pandas
     import pygaps
     from pygaps.core.baseisotherm import BaseIsotherm
@@ -72,14 +81,18 @@ def make_isotherm(spec):
         if isinstance(branch, list) and spec.get("branch_in_frame", False):
             cols["branch"] = list(branch)
             df = pandas.DataFrame(cols)
+            if spec.get("index"):
+                df.index = list(spec["index"])
             return pygaps.PointIsotherm(isotherm_data=df, pressure_key=pk, loading_key=lk, **common)
         df = pandas.DataFrame(cols)
+        if spec.get("index"):
+            df.index = list(spec["index"])      # row labels other than 0..n-1 (a filtered / sorted / labelled user frame)
         return pygaps.PointIsotherm(
             isotherm_data=df, pressure_key=pk, loading_key=lk,
             branch=(list(branch) if isinstance(branch, list) else branch), **common)
     if kind == "model":
         if "fit" in spec:
-            src = make_isotherm(spec["fit"]["from"])
+            src = _make_isotherm(spec["fit"]["from"])
             return pygaps.ModelIsotherm.from_pointisotherm(
                 src, model=spec["fit"]["model"], verbose=False, **spec["fit"].get("kwargs", {}))
         from pygaps.modelling import model_from_dict
